@@ -19,7 +19,7 @@ ASSUMPTIONS = [
 EVAL = ['cases']
 DISTINCT = ['config', 'schedule', 'version_shape', 'ossl_client_auth', 'impl_sets']
 REQUIRED = ['cases', 'sessions_completed', 'records_protected', 'c06_checks', 'param_compares',
-            'clienthello_min_length_cases', 'ossl_sessions_completed', 'ossl_mfl_echoed', 'ossl_verified_bearssl_client', 'bearssl_verified_ossl_client']
+            'clienthello_min_length_cases', 'sessions_on_minimal_server_profiles', 'ossl_sessions_completed', 'ossl_mfl_echoed', 'ossl_verified_bearssl_client', 'bearssl_verified_ossl_client']
 NW = 16
 
 
